@@ -90,10 +90,12 @@ type PFD struct {
 
 // Op is one step of a case.
 type Op struct {
-	Kind string `json:"k"`
-	Peer int    `json:"peer,omitempty"`
-	Sess int    `json:"sess,omitempty"`
-	Seq  uint32 `json:"seq,omitempty"`
+	// TSOffset (assoc): seconds added to the peer's Recovery Time Stamp - a peer that restarted
+	TSOffset int    `json:"tsoffset,omitempty"`
+	Kind     string `json:"k"`
+	Peer     int    `json:"peer,omitempty"`
+	Sess     int    `json:"sess,omitempty"`
+	Seq      uint32 `json:"seq,omitempty"`
 
 	// est
 	CPSEID uint64 `json:"cpseid,omitempty"`
